@@ -91,6 +91,18 @@ pub struct Case {
     /// is forgotten, then the last queue handle is dropped
     #[serde(default)]
     pub end_by_forget: bool,
+    /// results of successive stream.flush() calls (true = Ok); empty = always Ok
+    #[serde(default)]
+    pub flush_results: Vec<bool>,
+    /// the result and flush scripts repeat for the whole run instead of covering only its start
+    #[serde(default)]
+    pub cycle_scripts: bool,
+    /// results the stream gives the queue's own in-band report entries (Ok or Io)
+    #[serde(default)]
+    pub report_results: Vec<SRes>,
+    /// queue capacity == number of entries appended (it can become exactly full, never overflow)
+    #[serde(default)]
+    pub exact_capacity: bool,
 }
 
 pub fn flush_interval(us: u32) -> Duration {
@@ -116,8 +128,12 @@ pub fn check(case: &Case) -> CaseResult {
     let gate = Gate::new(!(case.gated || backlog));
     let mut stream = BqStream::new(case.results.clone(), gate.clone(), log.clone());
     stream.jitter = case.jitter.clone();
+    stream.flush_ok = case.flush_results.clone();
+    stream.cycle = case.cycle_scripts;
+    stream.report_results = case.report_results.clone();
     // capacity >= total appends: no overflow by construction
-    let (q, handle) = build_queue(total.max(1) + 1, case.boxed, flush_interval(case.flush_us), stream);
+    let capacity = if case.exact_capacity { total.max(1) } else { total.max(1) + 1 };
+    let (q, handle) = build_queue(capacity, case.boxed, flush_interval(case.flush_us), stream);
     let flush_counter = std::sync::atomic::AtomicU32::new(0);
     let reports_before = REPORTS_SEEN.load(std::sync::atomic::Ordering::Relaxed);
     let res: Result<Vec<(u32, FlushWait)>, Fail> = std::thread::scope(|s| {
@@ -315,6 +331,15 @@ pub fn check(case: &Case) -> CaseResult {
     if case.gated {
         classes.push("gated-writer");
     }
+    if case.exact_capacity && total >= 2 {
+        classes.push("capacity-equals-entries-appended");
+    }
+    if case.cycle_scripts && total > 40 && !case.results.is_empty() {
+        classes.push("non-ok-results-throughout-a-long-run");
+    }
+    if !case.flush_results.is_empty() && case.flush_results.iter().any(|b| !*b) {
+        classes.push("stream-flush-errors");
+    }
     if case.end_by_forget {
         classes.push("ended-by-forget-and-last-handle-drop");
         if queued_at_shutdown {
@@ -448,8 +473,14 @@ pub fn arb_case(max_producers: usize, max_ops: usize) -> impl Strategy<Value = C
         prop::bool::weighted(0.7),
         prop::bool::weighted(0.25),
         prop::bool::weighted(0.25),
+        (
+            prop::collection::vec(prop::bool::weighted(0.7), 0..6),
+            prop::bool::weighted(0.4),
+            prop::collection::vec(prop_oneof![2 => Just(SRes::Ok), 1 => Just(SRes::Io)], 0..3),
+            prop::bool::weighted(0.3),
+        ),
     )
-        .prop_map(|(boxed, flush_us, producers, results, gate, jitter, gated, backlog_at_shutdown, end_by_forget)| Case {
+        .prop_map(|(boxed, flush_us, producers, results, gate, jitter, gated, backlog_at_shutdown, end_by_forget, (flush_results, cycle_scripts, report_results, exact_capacity))| Case {
             boxed,
             flush_us,
             producers,
@@ -459,10 +490,14 @@ pub fn arb_case(max_producers: usize, max_ops: usize) -> impl Strategy<Value = C
             gated,
             backlog_at_shutdown,
             end_by_forget,
+            flush_results,
+            cycle_scripts,
+            report_results,
+            exact_capacity,
         })
 }
 
-pub const RULE: &str = "1-6 real producer threads x 0-25 ops (append, bursts, flush requests fired or awaited, yields/spins/sleeps, continuing through a clone) on a typed or boxed queue with capacity > total appends; the library's own writer thread; per-call stream results Ok/Validation/Io; writer progress owned by a generated fuel script (grants, pauses, wait-until-parked-at-the-gate) so that park/unpark races and drained-then-refilled queues occur; flush interval 1us / 1ms / 50ms; in a quarter of the cases the gate stays shut until shut_down() has begun, so that the shutdown-time drain meets a backlog with Io / Validation results inside it; no tracing subscriber (in-band report path live). a quarter of the cases end through forget() + drop of the last handle (the writer's own 'no appenders left' exit) instead of shut_down(). Oracle over the global event log after the end: every appended (producer, seq) reaches the stream exactly once, per-producer seq increasing, nothing else except the in-band report (only after a validation error, process-wide <= 1/s), stream flushed after the last entry and dropped. Non-trivial = >=2 producers with >=2 entries each and (a non-Ok result or a flush request)";
+pub const RULE: &str = "1-6 real producer threads x 0-25 ops (append, bursts, flush requests fired or awaited, yields/spins/sleeps, continuing through a clone) on a typed or boxed queue with capacity > total appends; the library's own writer thread; per-call stream results Ok/Validation/Io for entries (optionally repeating for the whole run), Ok/Io for the in-band report, Ok/error for stream.flush(); capacity = entries appended + 1 or exactly the entries appended; writer progress owned by a generated fuel script (grants, pauses, wait-until-parked-at-the-gate) so that park/unpark races and drained-then-refilled queues occur; flush interval 1us / 1ms / 50ms; in a quarter of the cases the gate stays shut until shut_down() has begun, so that the shutdown-time drain meets a backlog with Io / Validation results inside it; no tracing subscriber (in-band report path live). a quarter of the cases end through forget() + drop of the last handle (the writer's own 'no appenders left' exit) instead of shut_down(). Oracle over the global event log after the end: every appended (producer, seq) reaches the stream exactly once, per-producer seq increasing, nothing else except the in-band report (only after a validation error, process-wide <= 1/s), stream flushed after the last entry and dropped. Non-trivial = >=2 producers with >=2 entries each and (a non-Ok result or a flush request)";
 
 pub fn run(ctx: &mut Ctx) {
     ctx.assume("thread interleavings are sampled (perturbed by generated yields/spins/sleeps in producers and in the stream callbacks and by the fuel script), not enumerated");
@@ -473,7 +508,7 @@ pub fn run(ctx: &mut Ctx) {
         SubCfg::new("c01-delivery", RULE, if q { 1_500 } else { 40_000 })
             .threads(ctx.tier.pick(4, 8))
             .shrink_iters(200)
-            .mandatory(&["non-ok-result", "flush-request", "boxed-queue", "typed-queue", "gated-writer", "backlog-at-shutdown", "io-result-inside-shutdown-backlog", "backlog-when-last-handle-dropped"]),
+            .mandatory(&["non-ok-result", "flush-request", "boxed-queue", "typed-queue", "gated-writer", "backlog-at-shutdown", "io-result-inside-shutdown-backlog", "backlog-when-last-handle-dropped", "capacity-equals-entries-appended", "stream-flush-errors"]),
         || arb_case(6, 25),
         check,
     );
